@@ -224,6 +224,9 @@ class CallsMixin:
             if k.arg is None:
                 self.unsupported("**kwargs", e)
             kw[k.arg] = self.ev(k.value, env, mod, fn)
+        if env.dead:
+            # an argument expression always raises: the call itself is never made
+            return NONE
         return self.call(callee, args, kw, env, e, fn)
 
     def mutate(self, recv, meth, args, env, node):
